@@ -35,6 +35,10 @@ def cases(tier, seed):
         for i in range(nb):
             out.append(dict(t="tile", cs=cs, gen=["uniform", "polar", "structure", "structure"][i % 4], n=30 if tier == "quick" else 60,
                             D=R.choice([5, 8, 12, 16, 20]) if tier == "quick" else R.choice([6, 8, 12, 16, 20, 24]), seed=R.randrange(1 << 30)))
+        for i in range(6 if tier == "quick" else 100):
+            out.append(dict(t="track", cs=cs, D=[1, 3, 6, 10, 16, 22][i % 6], steps=60, ntracks=4 if tier == "quick" else 8, seed=R.randrange(1 << 30)))
+        for i in range(4 if tier == "quick" else 60):
+            out.append(dict(t="pairs", cs=cs, n=10 if tier == "quick" else 25, seed=R.randrange(1 << 30)))
         for i in range(8 if tier == "quick" else 160):
             out.append(dict(t="pixel", cs=cs, gen=["uniform", "polar89", "structure", "branch"][i % 4], n=14 if tier == "quick" else 25, seed=R.randrange(1 << 30)))
     return out
@@ -156,6 +160,78 @@ def case_tile(spec):
     return r
 
 
+def case_track(spec):
+    """consecutive lookups at ONE depth of points that move by a fraction of a tile per step (a track, a raster scan, a sorted
+    catalogue): every answer must contain its own point, whatever was looked up just before"""
+    from toasty import toast
+    from toasty.toast import ToastCoordinateSystem as CS
+
+    pl = spec["cs"] == "planetary"
+    cs = CS.PLANETARY if pl else CS.ASTRONOMICAL
+    R = random.Random(spec["seed"])
+    D = spec["D"]
+    width = (math.pi / 2) / (1 << D)
+    probs = []
+    n = crossings = 0
+    for _ in range(spec["ntracks"]):
+        lon, lat = R.uniform(0, 2 * math.pi), math.asin(R.uniform(-0.9, 0.9))
+        if R.random() < 0.3:
+            lon = R.choice([0.0, math.pi / 2, math.pi, 2 * math.pi]) - 3 * width * R.random()  # towards a seam / face edge
+        ang = R.uniform(0, 2 * math.pi)
+        step = width * R.choice([0.05, 0.15, 0.4])
+        prev = None
+        for i in range(spec["steps"]):
+            lo, la = lon + i * step * math.cos(ang) / max(0.2, math.cos(lat)), max(-1.55, min(1.55, lat + i * step * math.sin(ang)))
+            t = toast.toast_tile_for_point(D, la, lo % (2 * math.pi), coordsys=cs)
+            n += 1
+            pos = tuple(int(v) for v in t.pos)
+            crossings += int(prev is not None and pos != prev)
+            prev = pos
+            rc, _ = rt.tile_corners(pos, pl)
+            sd = float(rt.signed_edge_distances(rc, rt.xyz(lo, la)).min())
+            if sd < -1e-9:
+                probs.append("track step %d (lon=%.12g, lat=%.12g) depth %d: returned tile %s does not contain the point (%.3g tile widths outside)" % (i, lo, la, D, pos, -sd / width))
+                break
+        if len(probs) > 4:
+            break
+    r = dict(counters=dict(track_lookups=n, track_tile_changes=crossings), nontrivial=crossings > 0, sample=dict(spec=spec))
+    if probs:
+        r.update(status="violation", key="not-contained:track:" + spec["cs"], detail="; ".join(probs[:4]))
+    return r
+
+
+def case_pairs(spec):
+    """pixel lookups, back to back, of DISTINCT positions a few nanoradians apart, at depths where that is many pixels"""
+    from toasty import toast
+    from toasty.toast import ToastCoordinateSystem as CS
+
+    pl = spec["cs"] == "planetary"
+    cs = CS.PLANETARY if pl else CS.ASTRONOMICAL
+    R = random.Random(spec["seed"])
+    probs = []
+    n = 0
+    for _ in range(spec["n"]):
+        d = R.choice([12, 18, 21, 22, 24])
+        lon, lat = R.uniform(0.1, 6.1), math.asin(R.uniform(-0.8, 0.8))
+        for (lo, la) in ((lon, lat), (lon + R.uniform(2e-9, 9e-9), lat + R.uniform(-9e-9, 9e-9)), (lon - R.uniform(1e-10, 4e-9), lat)):
+            tile, x, y = toast.toast_pixel_for_point(d, la, lo, coordsys=cs)
+            n += 1
+            glon, glat = toast.toast_tile_get_coords(tile)
+            # nearest pixel centre, with the tile's own grid as origin to keep nanoradian differences exact
+            dl = (glon - lo + math.pi) % (2 * math.pi) - math.pi
+            dist = (dl * math.cos(la)) ** 2 + (glat - la) ** 2
+            iy, ix = np.unravel_index(np.argmin(dist), dist.shape)
+            err = max(abs(x - ix), abs(y - iy))
+            if not np.isfinite(err) or err > 2:
+                probs.append("(lon=%.17g, lat=%.17g) depth %d: returned pixel (x=%.2f, y=%.2f) of tile %s, nearest pixel centre is (x=%d, y=%d)" % (lo, la, d, x, y, tuple(tile.pos), ix, iy))
+        if len(probs) > 4:
+            break
+    r = dict(counters=dict(pair_lookups=n), nontrivial=True, sample=dict(spec=spec))
+    if probs:
+        r.update(status="violation", key="pixel-fit:nearby-positions", detail="; ".join(probs[:4]))
+    return r
+
+
 def case_pixel(spec):
     from toasty import toast
     from toasty.toast import ToastCoordinateSystem as CS
@@ -213,7 +289,7 @@ def case_pixel(spec):
 
 
 def run_case(spec, workdir):
-    return case_tile(spec) if spec["t"] == "tile" else case_pixel(spec)
+    return dict(tile=case_tile, pixel=case_pixel, track=case_track, pairs=case_pairs)[spec["t"]](spec)
 
 
 def finish(agg, tier):
